@@ -657,8 +657,11 @@ def _sig(cfg, chunks):
     r = HdlcFrameReader(use_octet_stuffing=cfg[0], use_abort_sequence=cfg[1])
     out = []
     for ch in chunks:
-        for f in r.read(ch):
-            out.append((f.as_bytes, f.is_valid, f.payload))
+        try:
+            for f in r.read(ch):
+                out.append((f.as_bytes, f.is_valid, f.payload))
+        except Exception as ex:  # noqa: BLE001 - recorded again (with the exception) by make_trace; C14 judges it
+            out.append(("raised", type(ex).__name__, None))
     return out
 
 
